@@ -83,7 +83,9 @@ def annotate_citations(
         # if we're applying to source_text, update offsets
         if offset_updater:
             start = offset_updater.update(start, bisect_right)
-            end = offset_updater.update(end, bisect_left)
+            # an empty span at an insertion point would otherwise end
+            # before it starts and duplicate the inserted text
+            end = max(offset_updater.update(end, bisect_left), start)
 
         # handle overlaps
         if start < last_end:
